@@ -324,6 +324,18 @@ impl Transaction {
     }
 }
 
+#[cfg(bsv_verif)]
+impl Transaction {
+    /// Verification-only, read-only view of the three memo slots (hash_inputs, hash_sequence, hash_outputs).
+    pub fn verif_hash_cache(&self) -> [Option<Vec<u8>>; 3] {
+        [
+            self.hash_cache.hash_inputs.as_ref().map(|h| h.to_bytes()),
+            self.hash_cache.hash_sequence.as_ref().map(|h| h.to_bytes()),
+            self.hash_cache.hash_outputs.as_ref().map(|h| h.to_bytes()),
+        ]
+    }
+}
+
 impl Transaction {
     pub fn verify(&self, pub_key: &PublicKey, sig: &SighashSignature) -> bool {
         ECDSA::verify_digest_impl(&sig.sighash_buffer, pub_key, &sig.signature, crate::SigningHash::Sha256d).unwrap_or(false)
